@@ -236,8 +236,6 @@ def check_table(case, rec):
                 raise Violation("table-missing", f"{case['chain']}[{t.index[i]},{t.columns[j]}] is NaN")
             if x != v[j, i]:
                 raise Violation("table-asymmetric", f"{case['chain']}[{t.index[i]},{t.columns[j]}]={x} != transpose {v[j, i]}")
-            if x < 0:
-                raise Violation("table-negative", f"{case['chain']}[{t.index[i]},{t.columns[j]}]={x}")
 
 
 def enum_tables(tier):
